@@ -1,4 +1,4 @@
-import CssVerif.Model.Struct
+import CssVerif.Model.StructSpec
 /-!
 # Lemmas about K2 `Struct`: bracket structure versus the three counters of `_tokensupto2`,
 locality of the parse loops.
@@ -8,34 +8,6 @@ open CssVerif.Proto (Cps)
 set_option linter.unusedSimpArgs false
 
 /-! ## bracket structure (specification side) -/
-
-/-- the three kinds of brackets -/
-inductive K where | brace | bracket | paren
-  deriving DecidableEq, Repr
-
-/-- how `_tokensupto2` classifies a token read from the tokenizer (by VALUE, then type FUNCTION) -/
-inductive Br where
-  | op (k : K) | cl (k : K) | no
-  deriving DecidableEq, Repr
-
-def Tok.br (t : Tok) : Br :=
-  if t.val = vLBrace then .op .brace
-  else if t.val = vRBrace then .cl .brace
-  else if t.val = vLBrack then .op .bracket
-  else if t.val = vRBrack then .cl .bracket
-  else if t.val = vLParen ∨ t.typ = .function then .op .paren
-  else if t.val = vRParen then .cl .paren
-  else .no
-
-def Cnt.inc (c : Cnt) : K → Cnt
-  | .brace => { c with brace := c.brace + 1 }
-  | .bracket => { c with bracket := c.bracket + 1 }
-  | .paren => { c with parant := c.parant + 1 }
-
-def Cnt.dec (c : Cnt) : K → Cnt
-  | .brace => { c with brace := c.brace - 1 }
-  | .bracket => { c with bracket := c.bracket - 1 }
-  | .paren => { c with parant := c.parant - 1 }
 
 theorem bump_br (c : Cnt) (t : Tok) :
     bump c t = match t.br with
@@ -61,34 +33,6 @@ theorem bump_br (c : Cnt) (t : Tok) :
 @[simp] theorem Cnt.dec_inc (c : Cnt) (k : K) : (c.inc k).dec k = c := by
   cases k <;> simp [Cnt.inc, Cnt.dec]
 
-/-- one step of the bracket stack; `none` = a closing bracket that does not match -/
-def push (stk : List K) (t : Tok) : Option (List K) :=
-  match t.br with
-  | .op k => some (k :: stk)
-  | .cl k =>
-    match stk with
-    | k' :: s => if k = k' then some s else none
-    | [] => none
-  | .no => some stk
-
-/-- run the bracket stack over a token list -/
-def nest : List K → List Tok → Option (List K)
-  | stk, [] => some stk
-  | stk, t :: ts =>
-    match push stk t with
-    | none => none
-    | some s => nest s ts
-
-/-- brackets, braces and parentheses (a FUNCTION token opens one) are properly nested and all closed -/
-def Balanced (g : List Tok) : Prop := nest [] g = some []
-
-instance (g : List Tok) : Decidable (Balanced g) := by unfold Balanced; infer_instance
-
-/-- the counters that correspond to a stack of open brackets, on top of `c₀` -/
-def cntFrom (c₀ : Cnt) : List K → Cnt
-  | [] => c₀
-  | k :: s => (cntFrom c₀ s).inc k
-
 theorem bump_push (c₀ : Cnt) (stk s : List K) (t : Tok) (h : push stk t = some s) :
     bump (cntFrom c₀ stk) t = cntFrom c₀ s := by
   rw [bump_br]
@@ -103,8 +47,6 @@ theorem bump_push (c₀ : Cnt) (stk s : List K) (t : Tok) (h : push stk t = some
       · simp at h
     · simp at h
   · next hk => simp at h; subst h; simp [hk]
-
-def zeroCnt : Cnt := ⟨0, 0, 0⟩
 
 theorem cntFrom_zero_nonneg (stk : List K) :
     0 ≤ (cntFrom zeroCnt stk).brace ∧ 0 ≤ (cntFrom zeroCnt stk).bracket ∧ 0 ≤ (cntFrom zeroCnt stk).parant ∧
@@ -139,22 +81,6 @@ theorem stop_zero (m : Mode) (s : List K) (t : Tok) :
       simp; omega
     simp [hb]
   simp [this]
-
-/-- from stack `stk`: well nested, no EOF, and the loop (counters `cntFrom c₀ ·`) never stops inside -/
-def calm (m : Mode) (c₀ : Cnt) : List K → List Tok → Bool
-  | _, [] => true
-  | stk, t :: ts =>
-    match push stk t with
-    | none => false
-    | some s => t.typ != .eof && !(stop m (cntFrom c₀ s) t) && calm m c₀ s ts
-
-/-- from stack `stk`: well nested, no EOF, no end token of mode `m` at nesting depth 0 -/
-def Quiet (m : Mode) : List K → List Tok → Bool
-  | _, [] => true
-  | stk, t :: ts =>
-    match push stk t with
-    | none => false
-    | some s => t.typ != .eof && !(s.isEmpty && endTok m t) && Quiet m s ts
 
 theorem calm_of_quiet (m : Mode) (stk : List K) (g : List Tok) (h : Quiet m stk g = true) :
     calm m zeroCnt stk g = true := by
@@ -252,9 +178,6 @@ theorem nest_append (stk : List K) (a b : List Tok) :
     | none => simp
     | some s => simp [ih s]
 
-/-- no EOF token -/
-def noEof (g : List Tok) : Bool := g.all (fun t => t.typ != .eof)
-
 /-- above a non-empty base nothing is at depth 0, so a well nested EOF-free stretch is quiet in any mode -/
 theorem quiet_lift (m : Mode) (stk s : List K) (b : K) (base : List K) (g : List Tok)
     (hn : nest stk g = some s) (he : noEof g = true) : Quiet m (stk ++ b :: base) g = true := by
@@ -289,19 +212,6 @@ theorem quiet_append (m : Mode) (stk s : List K) (a b : List Tok)
       exact ⟨ha.1, ih s1 ha.2 hn⟩
 
 /-! ## T4.1: what `_tokensupto2` returns on well nested input -/
-
-/-- the opening bracket a START token contributes (`util.py:341-349`) -/
-def Tok.startOpen (t : Tok) : Option K :=
-  if t.val = vLBrack then some .bracket
-  else if t.val = vLBrace then some .brace
-  else if t.val = vLParen ∨ t.typ = .function then some .paren
-  else none
-
-/-- the stack a start token leaves -/
-def startStack (t : Tok) : List K :=
-  match t.startOpen with
-  | some k => [k]
-  | none => []
 
 theorem bumpStart_eq (c₀ : Cnt) (t : Tok) : bumpStart c₀ t = cntFrom c₀ (startStack t) := by
   unfold bumpStart startStack Tok.startOpen
@@ -407,9 +317,6 @@ theorem upto_none_nil (m : Mode) (stk₀ stk' : List K) (g : List Tok)
 
 /-! ### the two modes that start at `brace = -1` (`blockstart`, `mq`) -/
 
-/-- no token that `_tokensupto2` would count as a brace -/
-def noBrace (g : List Tok) : Bool := g.all (fun t => t.br != .op .brace && t.br != .cl .brace)
-
 theorem bump_brace_of_noBrace (c : Cnt) (t : Tok) (h : (t.br != .op .brace && t.br != .cl .brace) = true) :
     (bump c t).brace = c.brace := by
   rw [bump_br]
@@ -471,6 +378,7 @@ theorem calm_blockstart (stk : List K) (g : List Tok) (hs : noBraceStk stk = tru
     · next s1 hs1 =>
       have hs1' := push_noBrace stk s1 t hs1 (by simpa using hb.1) hs
       have hbr := cntFrom_brace_of_noBraceStk m1Cnt s1 hs1'
+      try simp only [hs1]
       simp only [Bool.and_eq_true]
       refine ⟨⟨he.1, ?_⟩, ih s1 hs1' (by simpa [noBrace] using hb.2) (by simpa [noEof] using he.2) ⟨sfin, hn⟩⟩
       have hbr' : (cntFrom m1Cnt s1).brace = -1 := by rw [hbr]; rfl
@@ -784,13 +692,6 @@ theorem sheetLoop_stmt (O : Oracle) (M : List Cps) (st : SheetSt) (t : Tok) (g :
   rw [List.cons_append, sheetLoop_cons, sheetStep_stmt O M st t g e stk' x h1 h2 h3 h4 h5 hq hn hp he]
 
 /-! ## when a statement leaves the sheet state untouched -/
-
-/-- the token starts a `ruleset` (the default production of the sheet) -/
-def startsRuleset (t : Tok) : Bool :=
-  match t.typ with
-  | .s | .cdo | .cdc | .comment | .eof | .charsetSym | .importSym | .namespaceSym | .variablesSym
-  | .fontFaceSym | .mediaSym | .pageSym | .atkeyword => false
-  | _ => true
 
 theorem stmtEffect_ruleset (O : Oracle) (M : List Cps) (st : SheetSt) (t : Tok) (stmt : List Tok)
     (ht : startsRuleset t = true) :
